@@ -141,9 +141,10 @@ impl<'a> LoweringManager<'a> {
     };
     let mut instructions =
       function.body.iter().flat_map(|it| instance.lower_stmt(it)).collect_vec();
-    let return_value_expr = instance.lower_expr(&function.return_value);
     // Wrap return value with ref.as_non_null for reference types since locals are nullable
     let return_type = instance.type_cx.lower(&function.type_.return_type);
+    // (a type-erased `_this` that is returned needs the same cast as one that is stored)
+    let return_value_expr = instance.lower_expr_for_slot(&function.return_value, return_type);
     let return_value_expr =
       if matches!(return_type, wasm::Type::Int31 | wasm::Type::Eq | wasm::Type::Reference(_)) {
         wasm::InlineInstruction::RefAsNonNull(Box::new(return_value_expr))
@@ -265,11 +266,11 @@ impl<'a> LoweringManager<'a> {
           } else {
             (false, false, None, false)
           };
-        // Get the target function's expected parameter types for direct calls
-        let callee_param_types = if let lir::Expression::FnName(_, fn_type) = callee {
-          Some(&fn_type.argument_types)
-        } else {
-          None
+        // Get the target function's expected parameter types (direct calls and calls through a closure)
+        let callee_param_types = match callee {
+          lir::Expression::FnName(_, fn_type) => Some(&fn_type.argument_types),
+          lir::Expression::Variable(_, lir::Type::Fn(fn_type)) => Some(&fn_type.argument_types),
+          _ => None,
         };
         let argument_instructions = arguments
           .iter()
